@@ -18,6 +18,8 @@ ASSUMPTIONS = ["std::random_device::_M_getval is the only entropy source of the 
                "returned the inner result after 108 evaluations; outer Miser differs in the 3rd digit): the statement speaks of integrations run BEFORE the "
                "observed call, and the function-local statics are the documented restart feature of Integrate_MC_Vegas(init > 0); recorded as the statistic "
                "outer_with_nested_inner:* in the evidence, never a failure",
+               "Vegas accuracy clauses start at 100 calls (property quantifier: budgets 1e3..1e6); at the smallest accepted budget (2 calls) a constant 1 on "
+               "[0,1]x[1,3] returns 0.68 instead of 2 - outside the quantifier, only outcome/containment/evaluation count are checked there",
                "the bin-index clamp of fix 66169b8 is not observable from outside (it needs a uniform deviate of exactly 0): detector = Lean obligation vegas_ia_range_unconditional"]
 TRUSTED = ["scipy.special.ndtr as reference for Gaussian integrals"]
 
@@ -127,6 +129,15 @@ def generate(tier, seed, ctx):
         if method == "Monte-Carlo" and k % 13 == 0:
             n = rng.choice([1, 2, 3])
         R.append("c14.call " + call_str(method, rng.randrange(2 ** 32), lo, hi, n, fid, params_of(rng, fid, lo, hi)))
+    # --- guards of Integrate_MC (fix 52605b2): empty / odd-length region, budget < 1 (Vegas < 2) stop with a diagnostic; the
+    #     smallest accepted budgets (1, Vegas 2) are meaningful
+    for method in METHODS:
+        for reg in ([], [0.0], [0.0, 1.0, 2.0]):
+            R.append("c14.call %s %d 0 %s %d 0 1 %s" % (method, rng.randrange(2 ** 32), lst(reg), 1000, hx(1.0)))
+        for n in (0, -5):
+            R.append("c14.call " + call_str(method, rng.randrange(2 ** 32), [0.0], [1.0], n, 0, [1.0]))
+        R.append("c14.call " + call_str(method, rng.randrange(2 ** 32), [0.0, 1.0], [1.0, 3.0], 1 if method != "Vegas" else 2, 0, [1.0]))
+    R.append("c14.call " + call_str("Vegas", rng.randrange(2 ** 32), [0.0], [1.0], 1, 0, [1.0]))
     # --- the integrand reads the WHOLE argument vector (fid 6): its size must be the dimension for every method
     for k in range(90 if th else 36):
         method = METHODS[k % 3]
@@ -674,6 +685,11 @@ def compare(rq, impl, model, ctx):
     c = parse_call(a)
     d, lo, hi = c["d"], c["lo"], c["hi"]
     name = "Integrate_MC(%s)" % c["method"]
+    if tag(model) == "err":       # guards of fix 52605b2: malformed region / empty budget must stop with a diagnostic
+        ctx["nontrivial"].add((op, c["method"], "guard"))
+        if tag(impl) == "err":
+            return []
+        return [fail("prop", name + ": meaningless request (malformed region or empty budget) did not stop with a diagnostic", impl[:200])]
     if tag(impl) == "err" and c["method"] == "Vegas" and c["fid"] == 0 and abs(c["p"][0]) >= 1e150:
         return [fail("prop", VEGAS_OVERFLOW_CLAUSE, "%s: constant %r" % (name, c["p"][0]))]
     if tag(impl) != "ok":
@@ -713,7 +729,9 @@ def compare(rq, impl, model, ctx):
         if sg is not None and abs(v - ex) > 6 * sg + 1e-12 * abs(ex):
             return [fail("prop", name + ": estimate farther than six (plain Monte-Carlo) standard errors from the exact value",
                          "value %r exact %r sigma %.3g" % (v, ex, sg))]
-    if c["fid"] == 0:
+    if c["fid"] == 0 and not (c["method"] == "Vegas" and c["n"] < 100):
+        # Vegas below 100 calls (the quantifier starts at 1e3) refines its grid from a handful of points: only the guard
+        # boundary (accepted, terminates, finite, inside, evaluation count) is checked there
         out += const_check(ctx, name, c["method"], v, ex, calls)
     if c["method"] != "Vegas" and calls != c["n"]:
         out.append(fail("corr", name + ": number of integrand calls differs from the budget (Miser accounting npre+nptl+nptr = npts)", "%d vs %d" % (calls, c["n"])))
